@@ -62,6 +62,13 @@ impl Clone for Arc<RwLock<()>> {
 }
 #[verifier::external_body]
 pub struct VxGuard { _p: () }
+// "this request handler holds the shared side of the cache lock from here to its end" (R-GUARD grants it after a guard bound to a NAME;
+// the poller flushes the cache only under the exclusive side, so a handler that holds the shared side never reads across a flush)
+pub uninterp spec fn shared_lock_held() -> bool;
+#[verifier::external_body]
+pub proof fn grant_shared_lock_held(g: &VxGuard)
+    ensures shared_lock_held()
+{}
 // knowledge tokens of ONE poller iteration (loop bodies are verified from the loop invariants only, so nothing learnt in an earlier
 // iteration is available): the exclusive lock was taken; the cache was flushed; the epoch record was re-read through the flushed cache
 pub uninterp spec fn excl_lock_taken() -> bool;
